@@ -1,6 +1,6 @@
 (* C19 — Virtual sessions exist only through, and only as long as, their internal client. *)
 From Coq Require Import List NArith Bool.
-From Verif Require Import model.Hub proofs.Hub_easy proofs.Hub_route proofs.Hub_wf proofs.Hub_corollaries.
+From Verif Require Import model.Hub proofs.Hub_easy proofs.Hub_route proofs.Hub_wf proofs.Hub_corollaries proofs.Hub_virtual.
 Import ListNotations.
 Open Scope N_scope.
 
@@ -34,9 +34,150 @@ Theorem C19_message_to_virtual_rewritten : forall h c sid s n t p v ps c' tag,
   snd (step h (OMsg c (RSession (IdPub n)) tag)) =
   [ToConn c' (delivered 0 (RSession (IdPub n)) sid (sess_userid h sid s) (Some (RcptVirtual v)) tag)].
 Proof. exact message_to_virtual_rewritten. Qed.
-(* C19_add_visible / C19_backend_told (partial): that an added session is a member of the room and
-   announced, and that the backend is told on add and remove, is checked on implementation traces by
-   P_C19 (step_C19) and by the comparison with the model. *)
+
+(* ---- virtual sessions are announced and the backend is told (proofs/Hub_virtual.v) ----
+   The backend request tuple is (backend, kind, action, room, session, checksum ok): kind 2 = virtual
+   session, action 2 = add, action 3 = remove.  The new session gets the id next_id h, which names no
+   session of h.  (The same statements are checked on implementation traces by P_C19 / step_C19.) *)
+
+(* An internal client adds a virtual session to an existing room of its backend: the session exists,
+   with the kind, backend, room and user of the request; it is a member of the room; its join is queued
+   on the room subject, stamped with the clock value of the request; the backend is told; the table
+   entry (client, chosen id) names it. *)
+Theorem C19_add_visible : forall h c sid s v rn user flags incall r,
+  WF h -> conn_session h c sid s -> is_internal (s_kind s) = true ->
+  room_of h (s_backend s, rn) = Some r ->
+  let vs := next_id h in
+  let res := step h (OInternal c (IAdd v rn user flags incall)) in
+  get_sess h vs = None /\
+  (exists t, get_sess (fst res) vs = Some t /\ s_kind t = KVirtual sid v /\ s_backend t = s_backend s /\
+             s_room t = Some (s_backend s, rn) /\ s_user t = user) /\
+  (exists r', room_of (fst res) (s_backend s, rn) = Some r' /\ In vs (r_members r')) /\
+  In (ToBackend (s_backend s, 2, 2, rn, vs, 1)) (snd res) /\
+  (exists l, h_bus (fst res) =
+             h_bus h ++ mkpub (SubjRoom (s_backend s) rn) (ARoomEvent (SJoin [(vs, user)])) (h_clock h) :: l) /\
+  pget (h_vtable (fst res)) (sid, v) = Some vs.
+Proof. exact add_visible. Qed.
+
+(* The backend is told of the addition, in the plain and in the quiescent semantics. *)
+Theorem C19_backend_told_on_add : forall h c sid s v rn user flags incall r,
+  WF h -> conn_session h c sid s -> is_internal (s_kind s) = true ->
+  room_of h (s_backend s, rn) = Some r ->
+  In (ToBackend (s_backend s, 2, 2, rn, next_id h, 1)) (snd (step h (OInternal c (IAdd v rn user flags incall)))) /\
+  In (ToBackend (s_backend s, 2, 2, rn, next_id h, 1)) (snd (qstep h (OInternal c (IAdd v rn user flags incall)))).
+Proof. exact add_backend_told. Qed.
+
+(* Delivering the join publication writes the join to the connection of every ordinary / internal
+   session in the room that joined before the publication and was not told about the session before. *)
+Theorem C19_join_delivery : forall h b rn vs user tm m cm t,
+  get_sess h m = Some t -> is_virtual (s_kind t) = false -> s_conn t = Some cm ->
+  s_room t = Some (b, rn) -> s_join t <= tm -> nmem vs (s_seen t) = false ->
+  In (ToConn cm (SJoin [(vs, user)]))
+     (snd (deliver_pub h (mkpub (SubjRoom b rn) (ARoomEvent (SJoin [(vs, user)])) tm))).
+Proof. exact join_delivery. Qed.
+
+(* Quiescent semantics, nothing queued before the request: every connected member of the room (that
+   joined at a clock value not after the request, and was never told about the fresh id) receives the join. *)
+Theorem C19_add_delivered : forall h c sid s v rn user flags incall r m t cm,
+  WF h -> conn_session h c sid s -> is_internal (s_kind s) = true ->
+  room_of h (s_backend s, rn) = Some r -> h_bus h = [] ->
+  get_sess h m = Some t -> is_virtual (s_kind t) = false -> s_conn t = Some cm ->
+  s_room t = Some (s_backend s, rn) -> s_join t <= h_clock h -> nmem (next_id h) (s_seen t) = false ->
+  In (ToConn cm (SJoin [(next_id h, user)])) (snd (qstep h (OInternal c (IAdd v rn user flags incall)))).
+Proof. exact add_delivered. Qed.
+
+(* The internal client removes the virtual session registered under the id it chose (the room the
+   request names exists; the session is in room k): the session is gone, it is a member of no room
+   and referenced by no table, its leave is queued on the subject of room k, the backend is told,
+   the table entry is gone. *)
+Theorem C19_remove_invisible : forall h c sid s v rn r0 vs t k,
+  WF h -> conn_session h c sid s -> is_internal (s_kind s) = true ->
+  room_of h (s_backend s, rn) = Some r0 -> pget (h_vtable h) (sid, v) = Some vs ->
+  get_sess h vs = Some t -> s_room t = Some k ->
+  let res := step h (OInternal c (IRemove v rn)) in
+  s_kind t = KVirtual sid v /\
+  get_sess (fst res) vs = None /\
+  (forall k' r', room_of (fst res) k' = Some r' -> ~ In vs (r_members r')) /\
+  unreferenced (fst res) vs /\
+  In (ToBackend (s_backend t, 2, 3, snd k, vs, 1)) (snd res) /\
+  (exists l, h_bus (fst res) =
+             h_bus h ++ mkpub (SubjRoom (fst k) (snd k)) (ARoomEvent (SLeave [vs])) (h_clock h) :: l) /\
+  pget (h_vtable (fst res)) (sid, v) = None.
+Proof. exact remove_invisible. Qed.
+
+(* Delivering a leave publication writes it to the connection of every ordinary / internal session in
+   the room that joined before the publication. *)
+Theorem C19_leave_delivery : forall h b rn vs tm m cm t,
+  get_sess h m = Some t -> is_virtual (s_kind t) = false -> s_conn t = Some cm ->
+  s_room t = Some (b, rn) -> s_join t <= tm ->
+  In (ToConn cm (SLeave [vs]))
+     (snd (deliver_pub h (mkpub (SubjRoom b rn) (ARoomEvent (SLeave [vs])) tm))).
+Proof. exact leave_delivery. Qed.
+
+(* Quiescent semantics, nothing queued before: every connected member of room k receives the leave,
+   and the backend is told. *)
+Theorem C19_remove_delivered : forall h c sid s v rn r0 vs t k m tm cm,
+  WF h -> conn_session h c sid s -> is_internal (s_kind s) = true ->
+  room_of h (s_backend s, rn) = Some r0 -> pget (h_vtable h) (sid, v) = Some vs ->
+  get_sess h vs = Some t -> s_room t = Some k -> h_bus h = [] ->
+  get_sess h m = Some tm -> is_virtual (s_kind tm) = false -> s_conn tm = Some cm ->
+  s_room tm = Some k -> s_join tm <= h_clock h ->
+  In (ToConn cm (SLeave [vs])) (snd (qstep h (OInternal c (IRemove v rn)))) /\
+  In (ToBackend (s_backend t, 2, 3, snd k, vs, 1)) (snd (qstep h (OInternal c (IRemove v rn)))).
+Proof. exact remove_delivered. Qed.
+
+(* The session of the internal client is closed (bye, expiry, kick, resume takeover ... all go through
+   close_session): each of its virtual sessions that is in a room is gone, a member of no room, its
+   leave is queued (stamped not before the clock value of the state), the backend is told. *)
+Theorem C19_parent_close_removes : forall h p vs t v k,
+  WF h -> get_sess h vs = Some t -> s_kind t = KVirtual p v -> s_room t = Some k ->
+  let res := close_session h p in
+  get_sess (fst res) vs = None /\
+  (forall k' r', room_of (fst res) k' = Some r' -> ~ In vs (r_members r')) /\
+  In (ToBackend (s_backend t, 2, 3, snd k, vs, 1)) (snd res) /\
+  exists l tm, h_bus (fst res) = h_bus h ++ l /\
+               In (mkpub (SubjRoom (fst k) (snd k)) (ARoomEvent (SLeave [vs])) tm) l /\ h_clock h <= tm.
+Proof. exact parent_close_removes. Qed.
+
+(* The internal client says bye. *)
+Theorem C19_bye_removes_virtual : forall h c cn p vs t v k,
+  WF h -> aget (h_conns h) c = Some cn -> c_sess cn = Some p ->
+  get_sess h vs = Some t -> s_kind t = KVirtual p v -> s_room t = Some k ->
+  let res := step h (OBye c) in
+  get_sess (fst res) vs = None /\
+  (forall k' r', room_of (fst res) k' = Some r' -> ~ In vs (r_members r')) /\
+  In (ToBackend (s_backend t, 2, 3, snd k, vs, 1)) (snd res) /\
+  exists l tm, h_bus (fst res) = h_bus h ++ l /\
+               In (mkpub (SubjRoom (fst k) (snd k)) (ARoomEvent (SLeave [vs])) tm) l /\ h_clock h <= tm.
+Proof. exact bye_removes_virtual. Qed.
+
+(* ... in the quiescent semantics (nothing queued before; the quiescent step delivers up to 500
+   publications): every other connected member of room k receives the leave of the virtual session,
+   and the backend is told. *)
+Theorem C19_bye_leave_delivered : forall h c cn p vs t v k m tm cm,
+  WF h -> aget (h_conns h) c = Some cn -> c_sess cn = Some p ->
+  get_sess h vs = Some t -> s_kind t = KVirtual p v -> s_room t = Some k -> h_bus h = [] ->
+  (length (h_bus (fst (step h (OBye c)))) <= 500)%nat ->
+  m <> p -> get_sess h m = Some tm -> is_virtual (s_kind tm) = false -> s_conn tm = Some cm ->
+  s_room tm = Some k -> s_join tm <= h_clock h ->
+  In (ToConn cm (SLeave [vs])) (snd (qstep h (OBye c))) /\
+  In (ToBackend (s_backend t, 2, 3, snd k, vs, 1)) (snd (qstep h (OBye c))).
+Proof. exact bye_leave_delivered. Qed.
+
+(* The statements are not vacuous: on the model, an ordinary client in room 1, an internal client adds
+   a virtual session (id 3), then removes it / says bye; the outputs of the last request. *)
+Example C19_instance_add :
+  last_outs (init [0; 0] false) (ex_pre ++ [ex_add]) =
+  [ToBackend (0, 2, 2, 1, 3, 1); ToConn 1 (SJoin [(3, 9)]); ToConn 2 (SJoin [(3, 9)]); ToConn 1 (SPart 0); ToConn 2 (SPart 0)].
+Proof. exact ex_add_announced. Qed.
+Example C19_instance_remove :
+  last_outs (init [0; 0] false) (ex_pre ++ [ex_add; OInternal 2 (IRemove 5 1)]) =
+  [ToBackend (0, 2, 3, 1, 3, 1); ToConn 1 (SLeave [3]); ToConn 2 (SLeave [3])].
+Proof. exact ex_remove_announced. Qed.
+Example C19_instance_bye :
+  last_outs (init [0; 0] false) (ex_pre ++ [ex_add; OBye 2]) =
+  [ToConn 2 (SBye 0); Closed 2; ToBackend (0, 2, 3, 1, 3, 1); ToConn 1 (SLeave [2]); ToConn 1 (SLeave [3])].
+Proof. exact ex_bye_announced. Qed.
 
 Print Assumptions C19_virtual_gate.
 Print Assumptions C19_invariant_every_history.
@@ -44,3 +185,16 @@ Print Assumptions C19_virtual_has_live_internal_parent.
 Print Assumptions C19_virtual_gone_with_parent.
 Print Assumptions C19_virtual_table_sound.
 Print Assumptions C19_message_to_virtual_rewritten.
+Print Assumptions C19_add_visible.
+Print Assumptions C19_backend_told_on_add.
+Print Assumptions C19_join_delivery.
+Print Assumptions C19_add_delivered.
+Print Assumptions C19_remove_invisible.
+Print Assumptions C19_leave_delivery.
+Print Assumptions C19_remove_delivered.
+Print Assumptions C19_parent_close_removes.
+Print Assumptions C19_bye_removes_virtual.
+Print Assumptions C19_bye_leave_delivered.
+Print Assumptions C19_instance_add.
+Print Assumptions C19_instance_remove.
+Print Assumptions C19_instance_bye.
